@@ -509,13 +509,17 @@ Proof.
   rewrite P1, P3, P9, P12. rewrite !Pv by (cbn; tauto). unfold dirv. rewrite !HM. reflexivity.
 Qed.
 
+Lemma binview_beq_refl b : binview_beq b b = true.
+Proof. destruct b; cbn; auto. now rewrite !beq_refl. Qed.
+
 Theorem C18_holds_proof : forall c, wf c = true -> kf c = 0%N -> spec c (model c) = true.
 Proof.
-  intros c _ Hkf. unfold spec, model. apply andb_true_iff. split.
+  intros c _ Hkf. unfold spec, model. cbn [o_load o_bin]. apply andb_true_iff. split.
   - unfold paths_ok. destruct (load (c_env c)) as [vals| | |] eqn:E; auto.
     destruct (load_paths_clean_abs _ _ E) as (A & B & C). now rewrite A, B, C.
   - destruct (reference (c_env c)) as [|r] eqn:Er; [reflexivity|].
-    rewrite (load_is_reference _ _ Hkf Er). apply outcome_beq_refl.
+    rewrite (load_is_reference _ _ Hkf Er). rewrite outcome_beq_refl. cbn [andb].
+    destruct (c_binrun c); [apply binview_beq_refl|reflexivity].
 Qed.
 
 (* ------------------------------------------------------------------ errors of the chain walk *)
@@ -574,7 +578,7 @@ Proof.
 Qed.
 
 (* ------------------------------------------------------------------ witnesses *)
-Definition mk (e : env) : case := MkCase e (load e) None.
+Definition mk (e : env) : case := MkCase e true (MkObs (load e) (Some (bin_view (load e)))).
 
 (* known finding 1: the documented spelling WORKDIR is rejected *)
 Definition kf1_env : env :=
@@ -610,3 +614,19 @@ Definition ex_loop : env :=
 Example ex_loop_ok : wf (mk ex_loop) = true /\ kf (mk ex_loop) = 0%N /\ in_scope ex_loop = true
   /\ snd (ref_walk ex_loop) = EndErr ELoop /\ load ex_loop = OErr ELoop.
 Proof. vm_compute. auto. Qed.
+(* the base-path override theorem applies to ex_env (LAYERROOT = /srv//cake/ beats BASEPATH of b.conf) *)
+Example ex_env_override : (exists vals, load ex_env = OOk vals)
+  /\ (if isempty (sw_base ex_env) then layerroot ex_env else sw_base ex_env) <> [].
+Proof. split; [eexists; vm_compute; reflexivity|vm_compute; discriminate]. Qed.
+(* an unknown key without any value, and stray text, satisfy the premises of unknown_key_rejected *)
+Example ex_unknown : let content := bs "BASEPATH = /x
+[section]
+"%string in
+  In (bs "[section]"%string) (lines_of content)
+  /\ isempty (utrim (bs "[section]"%string)) || is_comment (utrim (bs "[section]"%string)) = false
+  /\ key_lookup tblc (upper_key (utrim (fst (split2 (nb 61) (utrim (bs "[section]"%string)))))) = None.
+Proof. vm_compute. auto. Qed.
+Example ex_clean_join : let b := bs "/srv/cake"%string in let v := bs "my/../layers2"%string in
+  b <> [] /\ is_rooted b = true /\ v <> [] /\ is_rooted v = false
+  /\ clean (b ++ sl :: v) = bs "/srv/cake/layers2"%string.
+Proof. vm_compute. repeat split; try discriminate; reflexivity. Qed.
